@@ -8,7 +8,8 @@
 
   Status: PARTIAL + WITNESS.
     * `fetch_flat_idempotent_partial` proves idempotence for flat masters (all fuel, all
-      definition-only variable-free sources).
+      definition-only sources whose variables resolve — `SrcOK` — to `$`-free words;
+      `fetch_flat_idempotent_plain` is the reading for variable-free sources).
     * `refetch_duplicates_nested` is a kernel-checked counterexample to the full property (finding
       D8, a defect of the library): with a `.multiple` definition inside a `.multiple` scope whose
       default is not in canonical spelling (`yes` for a bool), the second fetch has one more
@@ -21,10 +22,13 @@ open Phil
 
 /-- **Idempotence for flat masters (partial).**  Let the master consist of enabled plain
     definitions (not `.multiple`, not `.deprecated`, not of choice type) with non-empty, pairwise
-    distinct names (`FlatMaster`), not template-marked and with variable-free defaults
-    (`RefetchOK` — the model answers `unsupported` for a `$` in a source word, and the result of the
-    first fetch is the source of the second).  Then for every list `combined` of variable-free
-    source *definitions*: fetching the children of the result again reproduces the result.
+    distinct names (`FlatMaster`), not template-marked, without a recorded variable resolution and
+    with variable-free defaults (`RefetchOK` — the result of the first fetch carries the master's
+    meta data and is the source of the second; a live `$` without a recorded resolution makes the
+    model answer `unsupported`).  Then for every list `combined` of source *definitions* whose
+    variable resolution succeeds (`SrcOK`: a recorded `varRes = some (.ok rws refs)`, or none and
+    `$`-free words) and whose resolved words `srcWords` contain no live `$`: fetching the children
+    of the result again reproduces the result.
 
     The full property additionally covers — and this theorem does not — master scopes (nested
     results, sources given as scopes or dotted names), `.multiple` definitions and scopes (template
@@ -33,19 +37,32 @@ open Phil
     `.multiple` inside `.multiple` it is false: see `refetch_duplicates_nested`. -/
 theorem fetch_flat_idempotent_partial (e : Envs) (fuel : Nat) (mkids combined : List Obj)
     (hf : FlatMaster mkids) (hr : RefetchOK mkids)
-    (hdef : ∀ o ∈ combined, o.isDefn = true) (hdol : ∀ o ∈ combined, hasDollar o.words = false)
+    (hdef : ∀ o ∈ combined, o.isDefn = true) (hsrc : ∀ o ∈ combined, SrcOK o)
+    (hdol : ∀ o ∈ combined, hasDollar o.srcWords = false)
     (rm : Meta) (out : List Obj) (used : List Nat)
     (h : fetchScope e (fuel + 1) false { name := [] } mkids combined = .ok (.scope rm out, used)) :
     ∃ used', fetchScope e (fuel + 1) false { name := [] } mkids out = .ok (.scope rm out, used') :=
-  Phil.fetch_flat_idempotent_partial e fuel mkids combined hf hr hdef hdol rm out used h
+  Phil.fetch_flat_idempotent_partial e fuel mkids combined hf hr hdef hsrc hdol rm out used h
+
+/-- the variable-free reading: sources without recorded variable resolutions and without live `$` -/
+theorem fetch_flat_idempotent_plain (e : Envs) (fuel : Nat) (mkids combined : List Obj)
+    (hf : FlatMaster mkids) (hr : RefetchOK mkids)
+    (hdef : ∀ o ∈ combined, o.isDefn = true) (hnone : ∀ o ∈ combined, o.meta.varRes = none)
+    (hdol : ∀ o ∈ combined, hasDollar o.words = false)
+    (rm : Meta) (out : List Obj) (used : List Nat)
+    (h : fetchScope e (fuel + 1) false { name := [] } mkids combined = .ok (.scope rm out, used)) :
+    ∃ used', fetchScope e (fuel + 1) false { name := [] } mkids out = .ok (.scope rm out, used') :=
+  Phil.fetch_flat_idempotent_partial e fuel mkids combined hf hr hdef
+    (fun o ho => SrcOK.of_none (hnone o ho) (hdol o ho))
+    (fun o ho => by rw [srcWords_of_varRes_none o (hnone o ho)]; exact hdol o ho) rm out used h
 
 /-- the hypothesis of the partial theorem is never vacuous: such a fetch always succeeds -/
 theorem flat_fetch_succeeds (e : Envs) (fuel : Nat) (mkids combined : List Obj)
     (hf : FlatMaster mkids)
-    (hdef : ∀ o ∈ combined, o.isDefn = true) (hdol : ∀ o ∈ combined, hasDollar o.words = false) :
+    (hdef : ∀ o ∈ combined, o.isDefn = true) (hsrc : ∀ o ∈ combined, SrcOK o) :
     fetchScope e (fuel + 1) false { name := [] } mkids combined =
       .ok (.scope { name := [] } (flatResult mkids combined), flatUsed mkids combined) :=
-  Phil.fetch_flat e fuel _ mkids combined hf rfl rfl hdef hdol
+  Phil.fetch_flat e fuel _ mkids combined hf rfl rfl hdef hsrc
 
 /-- the fixed point itself: the flat result is stable under re-fetching -/
 theorem flatResult_idempotent (mkids combined : List Obj) (hf : FlatMaster mkids) (hr : RefetchOK mkids) :
